@@ -95,7 +95,7 @@ def check_call_order(rep, prog, rid):
     raises = [n for n in g.nodes if n.kind == 'stmt' and isinstance(n.ast, ast.Raise)]
     tests = [n for n in g.nodes if n.kind == 'test']
     t_nokey = [t for t in tests if ast.unparse(t.ast.test).replace(' ', '') == 'key._keyisNone']
-    t_nouid = [t for t in tests if 'len(key._uids)==0' in ast.unparse(t.ast.test).replace(' ', '')]
+    t_nouid = [t for t in tests if 'notkey._uids' in ast.unparse(t.ast.test).replace(' ', '')]
     for label, ts in (('no key material', t_nokey), ('no user id', t_nouid)):
         ok = len(ts) == 1 and g.dominates(ts[0].id, act[0].id)
         if ok:
@@ -104,7 +104,7 @@ def check_call_order(rep, prog, rid):
         rep.check(ok, rid, 'KeyAction.__call__', 'refusal: %s' % label, 'a key with %s must refuse before anything else happens' % label, where=where)
     if t_nouid:
         tt = ast.unparse(t_nouid[0].ast.test).replace(' ', '').replace('(', '').replace(')', '')
-        rep.check(tt == 'lenkey._uids==0andkey.is_primaryandactionisnotkey.certify.__wrapped__', rid, 'KeyAction.__call__',
+        rep.check(tt == 'notkey._uidsandkey.is_primaryandactionisnotkey.certify.__wrapped__', rid, 'KeyAction.__call__',
                   'identity-less exemption %s' % ast.unparse(t_nouid[0].ast.test),
                   'only the first self-certification may run on a primary key without an identity', where=where)
     # the action receives the component chosen by usage()
@@ -113,7 +113,7 @@ def check_call_order(rep, prog, rid):
             rep.check(bool(c.args) and ast.unparse(c.args[0]) == '_key', rid, 'KeyAction.__call__', 'action(%s, ...)' % (ast.unparse(c.args[0]) if c.args else None),
                       'the operation must run on the component that usage() selected', where=where)
     withs = [n for n in ast.walk(w) if isinstance(n, ast.With)]
-    ok = any(ast.unparse(i.context_expr).replace(' ', '') == "self.usage(key,kwargs.get('user',None))" and
+    ok = any(ast.unparse(i.context_expr).replace(' ', '') == "self.usage(key,kwargs.get('user'))" and
              i.optional_vars is not None and ast.unparse(i.optional_vars) == '_key' for n in withs for i in n.items)
     rep.check(ok, rid, 'KeyAction.__call__', 'with self.usage(key, user) as _key', 'the component is selected by the usage scan for the addressed key',
               where=where)
